@@ -1,5 +1,9 @@
 """C20 helpers: case generators, the observer that drives the real ztyle entry points,
-an independent SGR stripper and the child-process entry (python -m vt.monitors.c20_style in out).
+an independent SGR stripper, the child-process entry (python -m vt.monitors.c20_style in out) and the
+history machinery: `history_collect` makes the calling process (one that has not rendered anything yet) the
+root of a tree of histories of render operations / colour-policy changes; every tree node and every sampled
+history runs in its own os.fork() copy, so each history starts from that not-yet-rendering process state
+(a job with a 'histories'/'trees' key given to the child-process entry does the same in a new process: replay).
 
 Nothing in here decides the property: `observe*` only records what the real code returned.
 The oracle lives in vt/checks/c20.py.
@@ -174,20 +178,21 @@ def strip_sgr(s):
     out = []
     i, n, k = 0, len(s), 0
     while i < n:
-        ch = s[i]
-        if ch == ESC:
-            j = i + 1
-            if j < n and s[j] == '[':
+        e = s.find(ESC, i)
+        if e < 0:
+            out.append(s[i:])
+            break
+        out.append(s[i:e])
+        j = e + 1
+        if j < n and s[j] == '[':
+            j += 1
+            while j < n and ('0' <= s[j] <= '9' or s[j] == ';'):
                 j += 1
-                while j < n and ('0' <= s[j] <= '9' or s[j] == ';'):
-                    j += 1
-                if j < n and s[j] == 'm':
-                    i = j + 1
-                    k += 1
-                    continue
-            return None, k
-        out.append(ch)
-        i += 1
+            if j < n and s[j] == 'm':
+                i = j + 1
+                k += 1
+                continue
+        return None, k
     return ''.join(out), k
 
 
@@ -565,12 +570,421 @@ def observe_parse_error(kind, msg, envs):
     return res
 
 
+# --------------------------------------------------------------------------- histories
+
+# policy names of a history: the Color objects live for the whole history
+H_POLICIES = ('never', 'always', 'dflt', 'errp', 'tog', 'togerr', 'lib')
+# rendering entry points of a history step, and the policies each applies to (None = all)
+H_ENTRIES = {
+    'render': None, 'render-fresh': None, 'memento': None,
+    'str': ('lib',), 'str-fresh': ('lib',), 'perr': ('lib',),
+    'style-old': None, 'style-new': None, 'style-derived': None,
+    'markup': None, 'markup-old': None,
+    'trace': ('lib', 'never'),
+}
+# failures raised (and parses traced) INSIDE a history step use a grammar of their own: what matters there is
+# that the exception / the tracer is new at that step, and a step must stay cheap
+TINY_GRAMMAR = r'''
+    @@grammar :: Tiny
+    start = {item}+ $ ;
+    item = word | '(' ~ item {',' item} ')' ;
+    word = /[^\W\d]+/ ;
+'''
+TINY_SOURCES = ['a (', 'a 1', '(a', 'é (日本, ', 'x\n(y,, z)', '(a b)', '日本 語 ]', 'uno\n\tdos (tres,']
+_tiny = []
+
+
+def tiny_model():
+    import tatsu
+    if not _tiny:
+        _tiny.append(tatsu.compile(TINY_GRAMMAR))
+    return _tiny[0]
+
+
+def entries_for(policy):
+    return [e for e, ps in H_ENTRIES.items() if ps is None or policy in ps]
+
+
+class _Capture:
+    def __init__(self, tty):
+        self.buf, self._tty = [], tty
+
+    def write(self, s):
+        self.buf.append(s)
+        return len(s)
+
+    def flush(self):
+        pass
+
+    def isatty(self):
+        return self._tty
+
+
+def parse_failure(mat):
+    """the FailedParse of a material's source (nothing is rendered), or None"""
+    from tatsu.exceptions import FailedParse
+    kw = {'semantics': FailingSemantics(mat['semmsg'])}
+    if mat.get('filename') is not None:
+        kw['filename'] = mat['filename']
+    try:
+        model(mat['gi']).parse(mat['src'], **kw)
+    except FailedParse as e:
+        return e
+    except Exception:  # noqa: BLE001
+        return None
+    return None
+
+
+def tiny_failure(src):
+    from tatsu.exceptions import FailedParse
+    try:
+        tiny_model().parse(src)
+    except FailedParse as e:
+        return e
+    return None
+
+
+def traced(src, colorize, tty_err):
+    """what a traced parse of the tiny source writes to sys.stderr"""
+    from tatsu.exceptions import FailedParse
+    cap, saved = _Capture(tty_err), sys.stderr
+    sys.stderr = cap
+    try:
+        tiny_model().parse(src, trace=True, colorize=colorize)
+    except FailedParse:
+        pass
+    finally:
+        sys.stderr = saved
+    return ''.join(cap.buf)
+
+
+def _styled(case, col, value, factory=False):
+    from tatsu.ztyle import Style
+    kw = {m: True for m in case['mods']}
+    fg, bg = _col(case['fg']), _col(case['bg'])
+    if factory and col is not None:
+        s = col.style(value, fg=fg, bg=bg, **kw)
+        return s if case['spec'] is None else s.fmt(case['spec'])
+    if case['spec'] is not None:
+        kw['fmt'] = case['spec']
+    if col is not None:
+        kw['color'] = col
+    return Style(value, fg=fg, bg=bg, **kw)
+
+
+class History:
+    """one history inside the (forked) process: the process state IS the subject"""
+
+    def __init__(self, mat, exc, init):
+        from tatsu.ztyle import Color
+        from tatsu.ztyle.markup import markup
+        self.mat, self.exc = mat, exc
+        self.real = {'out': sys.stdout, 'err': sys.stderr}
+        self.tty = {'out': False, 'err': False}
+        for k in ('NO_COLOR', 'FORCE_COLOR', 'TERM'):
+            self.setenv(k, init.get(k))
+        self.settty('out', bool(init.get('tty')))
+        self.settty('err', bool(init.get('tty')))
+        self.colors = {'never': Color.never(), 'always': Color.always(), 'dflt': Color(),
+                       'errp': Color.stderr(), 'tog': Color.default(), 'togerr': Color.stderr(), 'lib': None}
+        # objects created now, used at later steps under whatever the policy says then
+        self.old_styles = {p: _styled(mat['style'], c, mat['style']['text']) for p, c in self.colors.items()}
+        self.old_markup = {}
+        for p, c in self.colors.items():
+            try:
+                self.old_markup[p] = markup(mat['markup']) if c is None else markup(mat['markup'], color=c)
+            except Exception as e:  # noqa: BLE001
+                self.old_markup[p] = e
+
+    @staticmethod
+    def setenv(k, v):
+        if v is None:
+            os.environ.pop(k, None)
+        else:
+            os.environ[k] = v
+
+    def settty(self, which, tty):
+        self.tty[which] = tty
+        fake = _FakeTTY(self.real[which], tty)
+        if which == 'out':
+            sys.stdout = fake
+        else:
+            sys.stderr = fake
+
+    def state_op(self, op):
+        kind = op[0]
+        if kind == 'env':
+            self.setenv(op[1], op[2])
+        elif kind == 'tty':
+            self.settty('out', op[1])
+            self.settty('err', op[1])
+        elif kind == 'tty-out':
+            self.settty('out', op[1])
+        elif kind == 'tty-err':
+            self.settty('err', op[1])
+        elif kind == 'enable':
+            self.colors[op[1]].enable(op[2])
+        else:
+            raise ValueError(f'unknown history operation {op!r}')
+
+    def render_op(self, policy, entries):
+        outs = []
+
+        def rec(name, fn):
+            try:
+                out = fn()
+            except Exception as e:  # noqa: BLE001  observation, judged by the oracle
+                outs.append([name, None, f'{type(e).__name__}: {str(e)[:120]}'])
+                return
+            if not isinstance(out, str):
+                outs.append([name, None, f'returned {type(out).__name__}'])
+            else:
+                outs.append([name, str.__str__(out), None])
+
+        self._fresh = None
+        for entry in entries:
+            self.entry(entry, policy, self.colors[policy], rec)
+        return outs
+
+    def fresh(self):
+        """a failure raised at this step (one parse per render operation)"""
+        if self._fresh is None:
+            self._fresh = tiny_failure(self.mat['tiny'])
+        return self._fresh
+
+    def entry(self, entry, policy, c, rec):
+        from tatsu import exceptions as X
+        from tatsu.ztyle.markup import markup
+        mat, exc = self.mat, self.exc
+        if entry in ('render', 'render-fresh'):
+            e = exc if entry == 'render' else self.fresh()
+            rec(entry, (lambda: e.render()) if c is None else (lambda: e.render(c)))
+        elif entry in ('str', 'str-fresh'):
+            e = exc if entry == 'str' else self.fresh()
+            rec(entry, lambda: str(e))
+        elif entry == 'memento':
+            try:
+                from tatsu.contexts.memento import memento
+                args = (exc.message, exc.cursor.textstr, exc.info, exc.stack)
+            except Exception:  # noqa: BLE001  evidence probe only: unobserved
+                return
+            rec(entry, (lambda: memento(*args)) if c is None else (lambda: memento(*args, color=c)))
+        elif entry == 'perr':
+            cls = getattr(X, mat['perr']['kind'])
+            rec(entry, lambda: str(cls(mat['perr']['msg'])))
+        elif entry in ('style-old', 'style-new', 'style-derived'):
+            case = mat['style']
+            t = case['text']
+            if entry == 'style-old':
+                s = self.old_styles[policy]
+            elif entry == 'style-new':
+                s = _styled(case, c, t, factory=True)
+            else:
+                s = self.old_styles[policy].underline()(t)
+            rec(entry + ':str', lambda: str(s))
+            rec(entry + ':fstring', lambda: f'{s}')
+            rec(entry + ':apply', lambda: s.apply(t))
+        elif entry == 'markup':
+            rec(entry, lambda: str(markup(mat['markup']) if c is None else markup(mat['markup'], color=c)))
+        elif entry == 'markup-old':
+            z = self.old_markup[policy]
+            def use():
+                if isinstance(z, Exception):
+                    raise z
+                return str(z)
+            rec(entry, use)
+        elif entry == 'trace':
+            rec(entry, lambda: traced(mat['tiny'], policy == 'lib', self.tty['err']))
+        else:
+            raise ValueError(f'unknown history entry {entry!r}')
+
+    def run(self, ops):
+        steps = []
+        for op in ops:
+            if op[0] == 'render':
+                steps.append(self.render_op(op[1], op[2]))
+            else:
+                self.state_op(op)
+                steps.append(None)
+        return steps
+
+
+H_HEAVY = ('render-fresh', 'str-fresh', 'trace')       # entries that parse inside the step
+
+
+def tree_entries(policy, path, t, heavy=True):
+    """the entry points a tree node runs for its render operation, and their order"""
+    es = [e for e in entries_for(policy) if heavy or e not in H_HEAVY]
+    k = (sum(path) + len(path) + t) % len(es)
+    return es[k:] + es[:k]
+
+
+def explore(hist, tree, t, path, fd):
+    """the tree of histories: every operation of the alphabet is applied in its own forked copy of THIS
+    process (which has executed `path`), and the copy goes on; render nodes append one line to fd.
+    Copies run strictly one after the other, so the lines never interleave."""
+    alphabet, maxlen = tree['alphabet'], tree['maxlen']
+    first = tree.get('first')
+    for ai, op in enumerate(alphabet):
+        if not path and first is not None and ai not in first:
+            continue
+        last = len(path) + 1 >= maxlen
+        if last and op[0] != 'render':
+            continue                     # nothing would be observed after it
+
+        def node(ai=ai, op=op, last=last):
+            here = [*path, ai]
+            if op[0] == 'render':
+                outs = hist.render_op(op[1], tree_entries(op[1], here, t, tree.get('heavy', True)))
+                os.write(fd, (json.dumps({'t': t, 'path': here, 'outs': outs}) + '\n').encode())
+            else:
+                hist.state_op(op)
+            if not last:
+                explore(hist, tree, t, here, fd)
+
+        status = _fork_wait(node)
+        if status != 0:
+            os.write(fd, (json.dumps({'t': t, 'path': [*path, ai], 'crash': status}) + '\n').encode())
+
+
+def _fork_wait(fn):
+    pid = os.fork()
+    if pid == 0:
+        code = 0
+        try:
+            fn()
+        except BaseException:  # noqa: BLE001
+            import traceback
+            traceback.print_exc(file=sys.__stderr__)
+            code = 3
+        finally:
+            os._exit(code)
+    _, status = os.waitpid(pid, 0)
+    return status
+
+
+def _forked(fn):
+    """run fn() in a forked copy of this process and return its JSON result"""
+    r, w = os.pipe()
+    pid = os.fork()
+    if pid == 0:
+        code = 0
+        try:
+            os.close(r)
+            try:
+                data = json.dumps({'ok': fn()})
+            except BaseException as e:  # noqa: BLE001
+                import traceback
+                data = json.dumps({'crash': f'{type(e).__name__}: {e}', 'tb': traceback.format_exc()[-1500:]})
+            with os.fdopen(w, 'w') as f:
+                f.write(data)
+        except BaseException:  # noqa: BLE001
+            code = 1
+        finally:
+            os._exit(code)
+    os.close(w)
+    with os.fdopen(r) as f:
+        data = f.read()
+    _, status = os.waitpid(pid, 0)
+    if not data:
+        return {'crash': f'history process ended with status {status} and no result'}
+    return json.loads(data)
+
+
+def preload():
+    """modules and lazily loaded colour tables a history would otherwise load again in every forked copy
+    (loading is not rendering: no Style is written out, no error is rendered)"""
+    import gc
+    import tatsu.contexts.memento
+    import tatsu.contexts.tracing
+    import tatsu.ztyle.markup
+    import tatsu.ztyle.xstyle  # noqa: F401
+    from tatsu.ztyle import css_color, named_color
+    for fn, name in ((named_color, 'red'), (css_color, 'pink'), (named_color, 'banana')):
+        try:
+            fn(name)
+        except Exception:  # noqa: BLE001
+            pass
+    gc.collect()
+    gc.freeze()
+
+
+def history_collect(job, nodefile):
+    """THIS process is the root of every history of the job: it must not have rendered anything yet (it has
+    imported, compiled the grammars and raised the parse failures).  Every history / every tree node runs in
+    a forked copy; the reference renderings are taken here after all of them have run."""
+    import gc
+    from tatsu import exceptions as X
+    from tatsu.ztyle import Color
+    mats = job['materials']
+    excs = [parse_failure(m) for m in mats]
+    for m in mats:
+        tiny_failure(m['tiny'])          # a parse, not a rendering: the parser's own lazy state is not the subject
+    usable = [i for i, e in enumerate(excs) if e is not None]
+    out = {'usable': usable, 'hist': [], 'refs': {}, 'tree_mi': [], 'nodes': []}
+    if not usable:
+        return out
+    preload()
+    try:
+        fd = os.open(nodefile, os.O_WRONLY | os.O_CREAT | os.O_TRUNC | os.O_APPEND, 0o600)
+        for t, tree in enumerate(job.get('trees', ())):
+            mi = usable[tree['mi'] % len(usable)]
+            out['tree_mi'].append(mi)
+            status = _fork_wait(lambda t=t, tree=tree, mi=mi:
+                                explore(History(mats[mi], excs[mi], tree['init']), tree, t, [], fd))
+            if status != 0:
+                os.write(fd, (json.dumps({'t': t, 'path': [], 'crash': status}) + '\n').encode())
+        os.close(fd)
+        with open(nodefile) as f:
+            out['nodes'] = [json.loads(ln) for ln in f]
+        os.unlink(nodefile)
+        for h in job.get('histories', ()):
+            mi = usable[h['mi'] % len(usable)]
+            res = _forked(lambda h=h, mi=mi: History(mats[mi], excs[mi], h['init']).run(h['ops']))
+            res['mi'] = mi
+            out['hist'].append(res)
+    finally:
+        gc.unfreeze()
+
+    def ref_of(fn):
+        try:
+            return [fn(), None]
+        except Exception as ex:  # noqa: BLE001
+            return [None, f'{type(ex).__name__}: {str(ex)[:120]}']
+
+    # reference renderings, taken after every history has run (this process rendered nothing before)
+    for mi in usable:
+        m, e = mats[mi], excs[mi]
+        ref = {'cls': type(e).__name__, 'line': e.info.line}
+        ref['render'] = ref_of(lambda: e.render(Color.never()))
+        with environment(ENVS[1]):
+            ref['perr'] = ref_of(lambda: str(getattr(X, m['perr']['kind'])(m['perr']['msg'])))
+        ref['trace'] = ref_of(lambda: traced(m['tiny'], False, False))
+        ref['fresh'] = ref_of(lambda: tiny_failure(m['tiny']).render(Color.never()))
+        out['refs'][str(mi)] = ref
+    return out
+
+
+def history_main(job, outfile):
+    """a process of its own as the root of the histories (used to replay one history)"""
+    for gi in range(len(GRAMMARS)):
+        model(gi)
+    out = history_collect(job, outfile + '.nodes')
+    tmp = outfile + '.tmp'
+    with open(tmp, 'w') as f:
+        json.dump(out, f)
+    os.replace(tmp, outfile)
+
+
 # --------------------------------------------------------------------------- child process
 
 def child_main(infile, outfile):
     """runs in a process whose real environment/tty-ness is the configuration under test"""
     with open(infile) as f:
         job = json.load(f)
+    if 'histories' in job or 'trees' in job:
+        history_main(job, outfile)
+        return
     out = {'isatty': [sys.stdout.isatty(), sys.stderr.isatty()],
            'env': {k: os.environ.get(k) for k in ('NO_COLOR', 'FORCE_COLOR')},
            'styles': [], 'failures': [], 'perrs': [], 'markup': []}
